@@ -1835,6 +1835,19 @@ impl Element {
                         }
                         overall_version_mask &= value_version_mask;
                     }
+                } else {
+                    // the attribute does not exist at all in the element type that is used in the target version
+                    let version_mask = element
+                        .elemtype
+                        .find_attribute_spec(attribute.attrname)
+                        .map_or(0, |attrspec| attrspec.version)
+                        & !(target_version as u32);
+                    overall_version_mask &= version_mask;
+                    compat_errors.push(CompatibilityError::IncompatibleAttribute {
+                        element: self.clone(),
+                        attribute: attribute.attrname,
+                        version_mask,
+                    });
                 }
             }
             // check the compatibility of the character content: enum values can be limited to some versions
